@@ -1,5 +1,6 @@
 import Slock.Proofs.EngineExpiry
 import Slock.Proofs.EngineConsts
+import Slock.Proofs.EngineNotLate3
 import Slock.Properties.C01
 /-!
 # C06 — holds expire in [E, E+2 s], notify the holder and free capacity (second / minute units, leader)
@@ -100,5 +101,158 @@ theorem C06_effects (db : DB) (key : Nat) (h : Hold) :
     { db.getKey key with holders := removeHolder (db.getKey key).holders h, locked := (db.getKey key).locked - h.depth }
     [mkReply { h.cmd with conn := h.conn } RESULT_EXPRIED ((db.getKey key).locked - h.depth) 0]
   exact ⟨more, by rw [hm]; rfl, hs⟩
+
+
+/-! ## Not late — global
+
+For EVERY start time and operation sequence (no premise on request ids: lock records are identified by `hid`, which the
+engine itself keeps unique), in the reached state every live hold is scheduled on the expiry wheel for a second that is
+still ahead. Long-table entries are keyed by the deadline; slot entries are looked at within `MAX_WAIT` = 8 seconds. An
+update or re-lock may move the deadline of a slot entry while the entry stays where it is (`updateHold`), so the general
+bound is "never more than `MAX_WAIT` seconds past the deadline" (`C06_not_late`, tight: see the example at the end);
+along sequences that never move a deadline of the key back, a live hold is never past its deadline at all
+(`C06_not_late_unshortened`). -/
+
+/-- distinct key ids, requests queued under their own key, and the hold invariant `HN`, in every reachable state -/
+theorem reachable_HN (now : Nat) (ops : List Op) :
+    KN (run (DB.init now) ops) ∧ KW (run (DB.init now) ops) ∧ HN (run (DB.init now) ops) := by
+  unfold run
+  have : ∀ (db : DB), KN db ∧ KW db ∧ HN db → KN (ops.foldl step db) ∧ KW (ops.foldl step db) ∧ HN (ops.foldl step db) := by
+    induction ops with
+    | nil => intro db h; exact h
+    | cons o os ih =>
+      intro db h
+      simp only [List.foldl_cons]
+      apply ih
+      obtain ⟨hk, hw, hn⟩ := h
+      cases o with
+      | lock c => exact ⟨opLock_cinv_kn db c hk, opLock_KW db c hw, opLock_HN db c hw hn⟩
+      | unlock c => exact ⟨opUnlock_kn db c hk, opUnlock_KW db c hw, opUnlock_HN db c hw hn⟩
+      | tick =>
+        have := opTick_HN db hk hw hn
+        exact ⟨(opTick_cons (0, 0) db hk).1, this.2.1, this.1⟩
+      | setLeader b =>
+        exact ⟨hk.of_keys_eq rfl, hw.of_sub (fun _ _ hx => hx.of_keys_eq rfl),
+          ⟨hn.ec, hn.hu.of_keys_seq rfl (Nat.le_refl _), fun n x hx => hn.ok n x (hx.of_keys_eq rfl),
+            fun n x hx => hn.lb n x (hx.of_keys_eq rfl)⟩⟩
+  exact this _ ⟨by simp [KN, DB.init], KW.init now, HN.init now⟩
+
+/-- **Scheduled ahead.** In every reachable state the expiry check time is `now + 1`, and every live hold `h` is on the
+wheel for a second `visit` with `now + 1 ≤ visit`; a long-table entry is keyed by the deadline (`visit = deadline`), a slot
+entry satisfies `visit ≤ now + 1 + MAX_WAIT` and (server time below 2^63−1) `visit ≤ deadline + MAX_WAIT`. -/
+theorem C06_scheduled_ahead (now0 : Nat) (ops : List Op) :
+    let db := run (DB.init now0) ops
+    db.eCheck = db.now + 1 ∧ ∀ k ∈ db.keys, ∀ h ∈ k.holders,
+      db.now + 1 ≤ h.sched.visit ∧ (h.sched.long = true → h.sched.visit = h.expT) ∧
+      (h.sched.long = false → h.sched.visit ≤ db.now + 1 + MAX_WAIT) ∧
+      (db.now < INF_TIME → h.sched.long = false → h.sched.visit ≤ h.expT + MAX_WAIT) := by
+  intro db
+  have hn := (reachable_HN now0 ops).2.2
+  refine ⟨hn.ec, ?_⟩
+  intro k hk h hh
+  have hat : HoldAt (run (DB.init now0) ops) k.key h := ⟨k, hk, rfl, hh⟩
+  have ho := hn.ok _ _ hat
+  exact ⟨hn.lb _ _ hat, ho.long, ho.short, ho.near⟩
+
+/-- **Record identity.** In every reachable state the `hid`s of the live holds of a key are pairwise distinct and below
+`db.seq` (the expiry sweep finds "that record" by `hid`), and every hold sits under the key its command names. -/
+theorem C06_hid_unique (now0 : Nat) (ops : List Op) :
+    let db := run (DB.init now0) ops
+    ∀ k ∈ db.keys, (k.holders.map (·.hid)).Nodup ∧ ∀ h ∈ k.holders, h.hid < db.seq ∧ h.cmd.key = k.key := by
+  intro db k hk
+  have hn := (reachable_HN now0 ops).2.2
+  have hu := hn.hu k hk
+  refine ⟨hu.1, ?_⟩
+  intro h hh
+  exact ⟨hu.2 _ (List.mem_map.mpr ⟨h, hh, rfl⟩), (hn.ok _ _ ⟨k, hk, rfl, hh⟩).key⟩
+
+/-- **Not late (general).** At every quiescent moment (between operations) a live hold is less than `MAX_WAIT` = 8 seconds
+past its deadline: `now + 1 ≤ deadline + 8`. (Server time below 2^63−1, the value that stands for "no deadline".) -/
+theorem C06_not_late (now0 : Nat) (ops : List Op) (hT : (run (DB.init now0) ops).now < INF_TIME) :
+    let db := run (DB.init now0) ops
+    ∀ k ∈ db.keys, ∀ h ∈ k.holders, db.now + 1 ≤ h.expT + MAX_WAIT := by
+  intro db k hk h hh
+  obtain ⟨h1, h2, _, h4⟩ := (C06_scheduled_ahead now0 ops).2 k hk h hh
+  cases hl : h.sched.long with
+  | true => have := h2 hl; show (run (DB.init now0) ops).now + 1 ≤ _; omega
+  | false => have := h4 hT hl; show (run (DB.init now0) ops).now + 1 ≤ _; omega
+
+/-- no LOCK of the sequence that updates or re-locks a hold of key `n` moves that hold's deadline back -/
+def noShorten (n : Nat) : DB → List Op → Bool
+  | _, [] => true
+  | db, o :: os =>
+    (match o with
+      | .lock c => c.key != n || !shortens db c
+      | _ => true) && noShorten n (step db o) os
+
+theorem reachable_NS (n : Nat) : ∀ (ops : List Op) (db : DB), KN db → KW db → HN db → NS n db → noShorten n db ops = true →
+    NS n (run db ops) ∧ HN (run db ops) := by
+  intro ops
+  induction ops with
+  | nil => intro db _ _ hn h _; exact ⟨h, hn⟩
+  | cons o os ih =>
+    intro db hk hw hn h hs
+    unfold noShorten at hs
+    simp only [Bool.and_eq_true] at hs
+    have e : run db (o :: os) = run (step db o) os := rfl
+    rw [e]
+    cases o with
+    | lock c =>
+      apply ih _ (opLock_cinv_kn db c hk) (opLock_KW db c hw) (opLock_HN db c hw hn) _ hs.2
+      apply opLock_NS db c n hw hn.ec _ h
+      intro hc
+      have := hs.1
+      simp only [hc, bne_self_eq_false, Bool.false_or, Bool.not_eq_true'] at this
+      exact this
+    | unlock c =>
+      exact ih _ (opUnlock_kn db c hk) (opUnlock_KW db c hw) (opUnlock_HN db c hw hn) (opUnlock_NS db c n hw hn.ec h) hs.2
+    | tick =>
+      have ht := opTick_HN db hk hw hn
+      exact ih _ (opTick_cons (0, 0) db hk).1 ht.2.1 ht.1 (opTick_NS db n hk hw hn h) hs.2
+    | setLeader b =>
+      apply ih (step db (.setLeader b)) (hk.of_keys_eq rfl) (hw.of_sub (fun _ _ hx => hx.of_keys_eq rfl)) _ _ hs.2
+      · exact ⟨hn.ec, hn.hu.of_keys_seq rfl (Nat.le_refl _), fun n x hx => hn.ok n x (hx.of_keys_eq rfl),
+          fun n x hx => hn.lb n x (hx.of_keys_eq rfl)⟩
+      · exact fun x hx => h x (hx.of_keys_eq rfl)
+
+/-- **Not late (deadline never moved back).** Along a sequence in which no update / re-lock of key `n` moves a deadline
+back (in particular: without updates and re-locks of `n`, or with extending ones only), every live hold of `n` is
+scheduled at or before its deadline and its deadline is still ahead: it is never past its deadline at a quiescent
+moment — it is handed to `doExpried` in the sweep of its deadline second. -/
+theorem C06_not_late_unshortened (now0 : Nat) (ops : List Op) (n : Nat) (hs : noShorten n (DB.init now0) ops = true)
+    (hT : (run (DB.init now0) ops).now < INF_TIME) :
+    let db := run (DB.init now0) ops
+    ∀ h ∈ (db.getKey n).holders, db.now + 1 ≤ h.sched.visit ∧ h.sched.visit ≤ h.expT ∧ db.now < h.expT := by
+  intro db h hh
+  have h0 : NS n (DB.init now0) := by
+    intro x hx; obtain ⟨k, hk, _⟩ := hx; simp [DB.init] at hk
+  have hr := reachable_NS n ops (DB.init now0) (by simp [KN, DB.init]) (KW.init now0) (HN.init now0) h0 hs
+  have hat : HoldAt (run (DB.init now0) ops) n h := holdAt_getKey hh
+  have h1 := hr.2.lb n h hat
+  have h2 := hr.1 h hat hT
+  exact ⟨h1, h2, Nat.lt_of_lt_of_le h1 h2⟩
+
+/-! ### Non-vacuity and tightness
+
+`opsExt`: a hold with E = 10 is re-locked (extended) after 3 s — the hypothesis of `C06_not_late_unshortened` holds.
+`opsShort`: a hold with E = 100 has backed off to an 8-second slot distance after 35 s; an update then sets E = 0
+(deadline 136). The record stays in its slot (second 144): at server time 143 it is still live, 7 s past the deadline
+(`now + 1 = deadline + MAX_WAIT`, the bound of `C06_not_late` is attained), and EXPRIED is sent by the tick of second 144. -/
+def A : Cmd := { req := 1, conn := 1, flag := 0, lockId := 1, key := 7, tflag := 0, timeout := 0, eflag := 0, expried := 10, count := 0, rcount := 5 }
+def A' : Cmd := { A with req := 2, expried := 20 }
+def opsExt : List Op := [.lock A, .tick, .tick, .tick, .lock A', .tick]
+example : noShorten 7 (DB.init 100) opsExt = true := by decide
+example : ((run (DB.init 100) opsExt).getKey 7).holders.map (fun h => (h.depth, h.expT, h.sched.visit)) = [(2, 124, 105)] := by decide
+
+def B : Cmd := { A with expried := 100 }
+def U : Cmd := { B with req := 2, flag := F_UPDATE, expried := 0 }
+def opsShort (n : Nat) : List Op := [.lock B] ++ List.replicate 35 .tick ++ [.lock U] ++ List.replicate n .tick
+set_option maxRecDepth 100000 in
+example : noShorten 7 (DB.init 100) (opsShort 0) = false := by decide
+set_option maxRecDepth 100000 in
+example : (run (DB.init 100) (opsShort 8)).now = 143 ∧
+    ((run (DB.init 100) (opsShort 8)).getKey 7).holders.map (fun h => (h.expT, h.sched.visit, h.sched.long)) = [(136, 144, false)] := by decide
+set_option maxRecDepth 100000 in
+example : (opTick (run (DB.init 100) (opsShort 8))).2.map (fun r => (r.req, r.result)) = [(2, RESULT_EXPRIED)] := by decide
 
 end Slock.C06
